@@ -45,6 +45,7 @@ def requests():
         Request("src/IO/InterfilePDFSHeaderSPECT.cxx", fn=["stir::InterfilePDFSHeaderSPECT::.*"], files=["/repo/src/IO/InterfilePDFSHeaderSPECT.cxx"]),
         Request("src/buildblock/interfile_keyword_functions.cxx", fn=["stir::standardise_interfile_keyword"]),
         Request("src/IO/interfile.cxx", fn=["stir::write_interfile_.*"], files=["/repo/src/IO/interfile.cxx"]),
+        Request("src/buildblock/ProjData.cxx", fn=["stir::ProjData::.*", "stir::apply_func"], files=["/repo/src/buildblock/ProjData.cxx"]),
     ]
 
 
@@ -672,6 +673,63 @@ def rule_k_address_names_the_piece(ctx, units):
     return n
 
 
+SEGMENT_GETTERS = ("get_segment_by_view", "get_segment_by_sinogram", "get_empty_segment_by_view", "get_empty_segment_by_sinogram")
+
+
+def rule_l_whole_data_loops_cover_tof(ctx, unit):
+    """Operations on a whole data set (fill, sums, norms, arithmetic, copies) walk over segments; for TOF data every such walk must
+    also run over ALL TOF bins and ask for the segment OF THAT BIN: each segment request made inside a loop over the segments names, as
+    its TOF index, the variable of a loop get_min_tof_pos_num()..get_max_tof_pos_num() (step 1) that encloses the request - never the
+    default (bin 0)."""
+    from engine.loops import describe
+
+    n = 0
+    seen = set()
+    for fn in unit.functions:
+        if fn.body is None or fn.is_dependent and False or (fn.file, fn.line) in seen:
+            continue
+        if not fn.file.endswith("/ProjData.cxx"):
+            continue
+        defs = LocalDefs(fn)
+        sub = {d: defs.single_def(d) for d in defs.decl}
+        loops = []
+        for lp in fn.walk():
+            if lp.k != "ForStmt":
+                continue
+            d = describe(lp, names=False)
+            if not d:
+                continue
+            vd = [m for m in lp.c[0].walk() if m.k == "VarDecl" and m.c]
+            init = key(vd[0].c[0].strip(), False, sub) if vd else (d.get("init") or "")
+            cond = lp.c[1].strip() if len(lp.c) == 4 else None
+            upper = key(cond.c[1].strip(), False, sub) if cond is not None and cond.k == "BinaryOperator" and cond.op == "<=" else ""
+            kind = None
+            if re.search(r"get_min_tof_pos_num\(\)$", init) and re.search(r"get_max_tof_pos_num\(\)$", upper) and str(d.get("step")) == "1":
+                kind = "tof"
+            elif re.search(r"get_min_segment_num\(\)", init) and re.search(r"get_max_segment_num\(\)", upper):
+                kind = "seg"
+            if kind:
+                loops.append((kind, d["d"], lp))
+        segvars = {d for k, d, _l in loops if k == "seg"}
+        tofvars = {d: l for k, d, l in loops if k == "tof"}
+        if not segvars:
+            continue
+        reqs_ = []
+        for m in fn.walk():
+            if m.k == "CXXMemberCallExpr" and (m.callee or "").split("::")[-1] in SEGMENT_GETTERS and m.call_args() and m.call_args()[0].strip().k == "DeclRefExpr" and m.call_args()[0].strip().get("d") in segvars:
+                reqs_.append((m, m.call_args()[-1].strip(), (m.callee or "").split("::")[-1]))
+            elif m.k == "CXXConstructExpr" and re.search(r"\bSegmentIndices\b", m.type or "") and len(m.c) == 2 and m.c[0].strip().k == "DeclRefExpr" and m.c[0].strip().get("d") in segvars:
+                reqs_.append((m, m.c[1].strip(), "SegmentIndices"))
+        if not reqs_:
+            continue
+        seen.add((fn.file, fn.line))
+        for i, (m, t, what) in enumerate(reqs_):
+            ok = t.k == "DeclRefExpr" and not t.get("defarg") and t.get("d") in tofvars and any(a is tofvars[t.get("d")] for a in m.ancestors())
+            ctx.ob("C02.l-whole-data-loops-cover-tof", fn.qn + "(" + fn.sig[:30] + ")", "%s@%d" % (what, i), ok, m.where(), "the segment of the TOF bin of the enclosing loop over all TOF bins" if ok else "inside a loop over the segments, the segment is requested for TOF index `%s`%s, not for the variable of an enclosing loop over all TOF bins: the operation skips or repeats TOF bins" % (key(t, True), " (default argument)" if t.get("defarg") else ""))
+            n += 1
+    return n
+
+
 def run(ctx):
     ctx.explanation = (
         "Decides structural necessary conditions of C02 from the source: (a) all five bin coordinates are range-checked "
@@ -690,7 +748,7 @@ def run(ctx):
     ]
     reqs = requests()
     ctx.ex.prefetch(reqs)
-    pdfs, pdim, pdfs_omp, ifile, hdr, hdrspect, kwu, helpers = (ctx.ex.get(r) for r in reqs)
+    pdfs, pdim, pdfs_omp, ifile, hdr, hdrspect, kwu, helpers, pdbase = (ctx.ex.get(r) for r in reqs)
     if pdfs is None or pdim is None:
         return
     byname = {}
@@ -713,6 +771,9 @@ def run(ctx):
     rule_c_single_address_map(ctx, pdfs, pdim)
     rule_k_address_names_the_piece(ctx, [(pdfs, "stir::ProjDataFromStream", "stir::ProjDataFromStream::get_offset"), (pdim, "stir::ProjDataInMemory", "stir::ProjDataInMemory::get_index")])
     ctx.require_count("C02.k-address-names-the-piece", 14)
+    if pdbase is not None:
+        rule_l_whole_data_loops_cover_tof(ctx, pdbase)
+        ctx.require_count("C02.l-whole-data-loops-cover-tof", 16)
     rule_d_flush(ctx, pdfs)
     rule_e_results_used(ctx, [pdfs, pdim])
     hw = [f for f in (ifile.functions if ifile else []) if f.body is not None and "ProjDataFromStream" in f.sig]
